@@ -54,7 +54,13 @@ class SList:
     def slen(self):
         if self.filt is not None:
             return T.Sum(self.base_len, lambda i: T.mk_ind(self.filt(i)))
-        return self.length
+        return self.length + len(getattr(self, "extra", ()))
+
+    def append(self, v):
+        """append to a symbolic list: kept as a concrete tail"""
+        if not hasattr(self, "extra"):
+            self.extra = []
+        self.extra.append(v)
 
     def getitem(self, k):
         if self.filt is not None:
@@ -65,7 +71,12 @@ class SList:
             if k.step not in (None, 1):
                 raise ModelError("strided list slice")
             return SList(stop - start, lambda i: self.elem(i + start))
-        if isinstance(k, int) and k < 0:
+        extra = getattr(self, "extra", [])
+        if isinstance(k, int) and k < 0 and extra:
+            if -k <= len(extra):
+                return extra[k]
+            k = self.length + (k + len(extra))
+        elif isinstance(k, int) and k < 0:
             k = self.length + k
         return self.elem(P(k))
 
@@ -90,6 +101,33 @@ class SList:
 
     def __repr__(self):
         return "SList(len=%r)" % (self.length,)
+
+
+class Bag:
+    """dask.bag.Bag of statistics: npart partitions of sizes size(p) holding the
+    elements elem(p, j) (trusted contract, DESIGN §3: to_delayed() yields the
+    partitions in order, map_partitions(len).compute() their lengths in the same order)"""
+    is_bag = True
+
+    def __init__(self, npart, size, elem):
+        self.npart, self.size, self.elem = P(npart), size, elem
+
+    def to_delayed(self):
+        return SList(self.npart, lambda p: SList(self.size(p), lambda j: self.elem(p, j)))
+
+    def persist(self):
+        return self
+
+    def map_partitions(self, f):
+        return BagMap(self, f)
+
+
+class BagMap:
+    def __init__(self, bag, f):
+        self.bag, self.f = bag, f
+
+    def compute(self):
+        return self
 
 
 class SRange:
